@@ -738,11 +738,12 @@ class NumpyModel:
             new_axes = []
             pos = 0
             for it in items:
-                if it.ty == 'None' or (has_const(it) and cval(it) is None):
+                if it.ty == 'None' or (has_const(it) and cval(it) is None) or (it.ty == 'ext' and it.qual == 'numpy.newaxis'):
                     new_axes.append('new')
                     continue
                 if has_const(it) and cval(it) is Ellipsis:
-                    rest = len([x for x in items[items.index(it) + 1:] if x.ty != 'None'])
+                    rest = len([x for x in items[items.index(it) + 1:] if x.ty != 'None' and not (has_const(x) and cval(x) is None)
+                                and not (x.ty == 'ext' and x.qual == 'numpy.newaxis')])
                     while len(axes) - pos > rest:
                         new_axes.append(axes[pos])
                         pos += 1
@@ -812,6 +813,8 @@ class NumpyModel:
                 trivial = all(i.lo is None and i.hi is None for i in items)
                 out = out.w(counts_of=base.counts_of, unique_of=base.unique_of, positional_slice=None if trivial else True)
         out = out.w(axes=new_axes, axis=axis_tag, at=base.at if (base.idx is not None and base.idx[0] == 'FRAME') else None)
+        if all(i.ty == 'None' or (has_const(i) and cval(i) in (None, Ellipsis)) or (i.ty == 'ext' and i.qual == 'numpy.newaxis') or _full(i) for i in items):
+            out = out.w(norm_of=base.norm_of, norm_removed=base.norm_removed)
         # offset views along the leading axis: x[k:] (element j is x[j + k]) and x[:-k] (element j is x[j])
         if items and items[0].ty == 'slice' and all(_full(i) for i in items[1:]) and isinstance(node, ast.Subscript):
             sl = items[0]
